@@ -13,14 +13,19 @@ EXPLANATION = (
     "+inf->1 and the constructor going through the sanitising setter, hedge order; no numpy in-place interface (copy=False, out=, "
     "copyto/put, op= on an array parameter) on a value handed in along the trigger path (T2-own); who-may-call for Consequent.modify; "
     "Consequent.load replaces the list of conclusions (O9) and, interpreted abstractly, is the consequent grammar automaton (LD)"
+    "; Consequent.modify is interpreted on 120 model consequents with a symbolic activation degree, uninterpreted hedges and numpy, and the real Activated constructor and degree setter: one activated term per conclusion on an enabled variable, carrying the concluded term, the implication handed in and the degree S[H(d)] of its own hedges (M-sem); the independence of conclusions is the known finding L1, found by the same interpretation"
 )
 ASSUMPTIONS = ["numpy.nan_to_num keyword semantics"]
-FLOORS = {"L1": 1, "P5": 5, "P4": 3, "T2": 4, "H1": 1, "T2-own": 1, "O9": 2, "LD": 4}
+FLOORS = {"L1": 1, "M-sem": 4, "P4": 3, "T2": 4, "T2-own": 1, "O9": 2, "LD": 4}
 
 
 def run(check: Check) -> None:
     wiring.p4_who_modifies(check)
-    wiring.modify_rules(check, p5=True, l1=True, h1=True)
+    from .consequent_sem import consequent_semantics
+
+    # Consequent.modify is decided by interpretation on model consequents with a symbolic degree (sa/rules/consequent_sem.py); the rules of
+    # earlier rounds that located the loop, the append, the Activated(...) call and the hedge loop (P5, H1, the structural L1) are subsumed
+    consequent_semantics(check)
     wiring.p4_trigger(check)
     wiring.t2_nonfinite(check)
     from .c13 import no_inplace_on_handed_values
